@@ -1,5 +1,5 @@
 PROP = {
-    "groups": ["relay"],
+    "groups": ["relay", "e2e-tmux-relay"],
     "rule": "scripted relay runs on the real trzsz.NewTrzszRelay over io.Pipes (1-3 transfers per relay; outcomes confirm / cancel / "
             "malformed ACT / malformed CFG; client type-ahead racing with the trigger, junk in front of the handshake line, the line split "
             "over several reads, the tail of the line and following bytes in one read, bytes after the line, transfer traffic racing with "
@@ -25,7 +25,8 @@ PROP = {
             "worker's first step; they are replayed on the real relay (sched:replay_publish:*); entry:* -- the client answers the trigger from inside the "
             "Write that delivers it, fresh relays at GOMAXPROCS 2,4,8,16. Every relay runs in a child process with a journal: a relay that dies is reported "
             "(relay-inner-crash-<pass>) with the panic and the chunks the killing run had been fed; malformed:* counts handshake lines with the colon first "
-            "and other malformed shapes",
+            "and other malformed shapes"
+            "; group e2e-tmux-relay: the real `trzsz -r` inside a pane of a real tmux server between the in-process client and trz/tsz (handshake parked and flushed through bypassTmuxChan to the client tty): tree identical, names, stop, status-interval restored after the relay exits",
     "trusted": ["modelled, not verified: the Go memory model is taken as sequentially consistent at the granularity of one atomic/lock/channel/buffer operation; "
                 "channel sends never block (a blocking send only removes schedules); readLine is abstracted to 'consumes some prefix of the parked bytes, "
                 "then accepts, rejects or waits' (its parsing is C03/C16); the detector is an arbitrary per-chunk rewriting (C06); "
